@@ -1,0 +1,49 @@
+//go:build verif
+
+package node
+
+import (
+	"reflect"
+	"runtime"
+
+	"gitlab.com/aquachain/aquachain/rpc"
+)
+
+// verification exports (C18). Add-only; compiled with -tags verif only.
+
+// VerifHandlers returns the rpc servers the node built for each transport
+// (nil when the transport is not started).
+func (n *Node) VerifHandlers() map[string]*rpc.Server {
+	n.lock.RLock()
+	defer n.lock.RUnlock()
+	return map[string]*rpc.Server{
+		"inproc": n.inprocHandler,
+		"ipc":    n.ipcHandler,
+		"http":   n.httpHandler,
+		"ws":     n.wsHandler,
+	}
+}
+
+// VerifRPCAPIs returns the API list startRPC gathered (node apis() followed by
+// every service's APIs()) and handed to the four start* functions.
+func (n *Node) VerifRPCAPIs() []rpc.API {
+	n.lock.RLock()
+	defer n.lock.RUnlock()
+	return append([]rpc.API(nil), n.rpcAPIs...)
+}
+
+// VerifNodeAPIs returns the node's own apis().
+func (n *Node) VerifNodeAPIs() []rpc.API { return n.apis() }
+
+// VerifStartFuncNames returns the runtime names (as runtime.Frame.Function
+// reports them, which is what rpc.RegisterName inspects) of the four functions
+// through which startRPC populates the per-transport servers.
+func VerifStartFuncNames() map[string]string {
+	name := func(f interface{}) string { return runtime.FuncForPC(reflect.ValueOf(f).Pointer()).Name() }
+	return map[string]string{
+		"inproc": name((*Node).startInProc),
+		"ipc":    name((*Node).startIPC),
+		"http":   name((*Node).startHTTP),
+		"ws":     name((*Node).startWS),
+	}
+}
